@@ -134,6 +134,17 @@ LAYOUTS = {
     'E3': dict(branches=[('development/4.3', None),
                          ('development/5.1', '=development/4.3'),
                          ('development/10.0', '=development/4.3')], tags=[]),
+    'SH3': dict(branches=[('hotfix/4.2.17', None),
+                          ('stabilization/4.3.18', None),
+                          ('development/4.3', 'stabilization/4.3.18'),
+                          ('development/5.1', 'development/4.3')],
+                tags=[('4.3.17', 'ROOT'), ('4.2.17.0', 'ROOT')]),
+    'SS3': dict(branches=[('stabilization/4.3.18', None),
+                          ('development/4.3', 'stabilization/4.3.18'),
+                          ('stabilization/5.1.5', 'development/4.3'),
+                          ('development/5.1', 'stabilization/5.1.5'),
+                          ('development/10.0', 'development/5.1')],
+                tags=[('4.3.17', 'ROOT'), ('5.1.4', 'ROOT')]),
     'S4': dict(branches=[('stabilization/4.3.18', None),
                          ('development/4.3', 'stabilization/4.3.18'),
                          ('development/4', 'development/4.3'),
